@@ -245,6 +245,9 @@ def check_sliding(case):
     if status == "err":
         raise Reject(f"NumPy rejects: {want}")
     sig = dict(op="sliding_window_view", zero_chunk=A.has_zero_chunk(arr["chunks"]), repeated_axis=isinstance(axis, list) and len(set(a % x.ndim for a in axis)) < len(axis))
+    # input class of finding F-C26-sliding-zero-chunk-window1: an explicit zero-size chunk on an axis that is windowed with total
+    # window extent 1 (so no overlap is needed there) while automatic_rechunk is on (the default)
+    sig["zero_chunk_on_window1_axis"] = _zero_chunk_on_window1_axis(arr, win, axis, case.get("automatic_rechunk"))
     kw = {}
     if case.get("automatic_rechunk") is not None:
         kw["automatic_rechunk"] = case["automatic_rechunk"]
@@ -255,6 +258,16 @@ def check_sliding(case):
     A.same_array(got, want, what=what, sig=sig)
     A.check_meta(r, got, what=what, sig=sig)
     C.check_chunks_valid(r, what, sig)
+
+
+def _zero_chunk_on_window1_axis(arr, win, axis, automatic_rechunk):
+    nd = len(arr["shape"])
+    axes = list(range(nd)) if axis is None else ([axis] if not isinstance(axis, list) else axis)
+    wins = win if isinstance(win, list) else [win]
+    extent = {}
+    for a, w in zip(axes, wins):
+        extent[a % nd] = extent.get(a % nd, 0) + w - 1
+    return automatic_rechunk is not False and any(e == 0 and len(arr["chunks"][a]) > 1 and 0 in arr["chunks"][a] for a, e in extent.items())
 
 
 # --------------------------------------------------------------------------
@@ -422,9 +435,6 @@ def stencil_case(draw):
         bspec = {"k": "tuple", "v": bounds}
     case = {"array": arr, "depth": dspec, "boundary": bspec, "stencil": draw(stencil_spec(depths)), "trim": trim, "method": draw(st.booleans()), "dtype_kw": draw(st.booleans())}
     fits = all(max(lo_hi(d)) <= min(c) for d, c in zip(depths, arr["chunks"]) if max(lo_hi(d)) > 0)
-    if not trim and not fits:
-        # with trim=False dask declares the output chunks itself from the re-chunked input; keep to chunkings that need no rechunk
-        case["trim"] = True
     if fits and draw(st.integers(0, 3)) == 0:
         case["allow_rechunk"] = False
     return case
